@@ -62,14 +62,24 @@ func accessFacts(s *src, f *facts) {
 	// innermost function body (literal or declaration) containing n
 	innerBody := func(fd *ast.FuncDecl, n ast.Node) (*ast.BlockStmt, string) {
 		if fl := enclosing[*ast.FuncLit](fd.Body, n); fl != nil {
-			// name the literal by its ordinal among the function's literals, not by its line
-			n := 0
-			for i, l := range all[*ast.FuncLit](fd.Body, nil) {
-				if l == fl {
-					n = i + 1
+			// name the literal by its role, not by its line or ordinal: the variable it is bound to, or the
+			// go / defer statement it belongs to, plus the start of its first statement
+			role := "lit"
+			if a := enclosing[*ast.AssignStmt](fd.Body, fl); a != nil && len(a.Rhs) == 1 && a.Rhs[0] == ast.Expr(fl) {
+				role = s.str(a.Lhs[0])
+			} else if g := enclosing[*ast.GoStmt](fd.Body, fl); g != nil && g.Call.Fun == ast.Expr(fl) {
+				role = "go"
+			} else if d := enclosing[*ast.DeferStmt](fd.Body, fl); d != nil && d.Call.Fun == ast.Expr(fl) {
+				role = "defer"
+			}
+			firstStmt := ""
+			if len(fl.Body.List) > 0 {
+				firstStmt = s.str(fl.Body.List[0])
+				if len(firstStmt) > 24 {
+					firstStmt = firstStmt[:24]
 				}
 			}
-			return fl.Body, fmt.Sprintf("%s.func%d", fd.Name.Name, n)
+			return fl.Body, fmt.Sprintf("%s.%s{%s}", fd.Name.Name, role, strings.ReplaceAll(firstStmt, "\"", "'"))
 		}
 		return fd.Body, fd.Name.Name
 	}
